@@ -827,6 +827,22 @@ fn time_reflection() -> Option<String> {
     None
 }
 
+/// C13: time reflection of a mildly stiff problem: the stiffness detector of DOPRI5 / DOP853 must answer alike in both directions
+fn time_reflection_stiff() -> Option<String> {
+    struct St { refl: bool }
+    impl IVP for St { fn ode(&self, t: f64, y: &[f64], d: &mut [f64]) { let tt = if self.refl { -t } else { t }; let v = -1e4 * (y[0] - tt.cos()); d[0] = if self.refl { -v } else { v }; } }
+    for m in [Method::DOPRI5, Method::DOP853, Method::RK23] {
+        for &(x0, xe) in &[(0.5f64, 1.5f64), (1.5, 0.5)] {
+            let o = || Options::builder().method(m.clone()).rtol(1e-4).atol(1e-7).build();
+            let (a, b) = match (solve_ivp(&St { refl: false }, x0, xe, &[x0.cos()], o()), solve_ivp(&St { refl: true }, -x0, -xe, &[x0.cos()], o())) { (Ok(a), Ok(b)) => (a, b), _ => return Some(format!("{:?}: stiff test problem fails in one direction only", m)) };
+            if a.status != b.status || a.t.len() != b.t.len() || (a.nstep, a.naccpt, a.nrejct) != (b.nstep, b.naccpt, b.nrejct) {
+                return Some(format!("{:?}: y' = -1e4 (y - cos x) on [{}, {}]: status {:?} after {} accepted steps; the time-reflected problem: status {:?} after {} accepted steps", m, x0, xe, a.status, a.naccpt, b.status, b.naccpt));
+            }
+        }
+    }
+    None
+}
+
 /// C13: scaling the state and atol of a linear homogeneous system by a power of two scales the trajectory by the same power, bit for bit
 fn pow2_scaling() -> Option<String> {
     struct LinT;
@@ -1401,6 +1417,7 @@ fn main() {
         "default_mass" => default_mass(),
         "matrix_dense_model" => matrix_dense_model(),
         "lu_small" => lu_small(),
+        "time_reflection_stiff" => time_reflection_stiff(),
         "dae_constraint" => dae_constraint(),
         "event_at_step_start_state" => event_at_step_start_state(),
         "radau_dense_flag_invariance" => radau_dense_flag_invariance(),
